@@ -50,6 +50,9 @@ def gen_bool(rng, depth=2):
     return f"({a} || {b})", va or vb
 
 
+_DIMLESS = None
+
+
 def gen_case(rng, db, pool):
     """returns dict(assertion text, expect: True/False/None(boundary), probe: numbat expression for the boundary,
     kind, nontrivial)"""
@@ -75,6 +78,13 @@ def gen_case(rng, db, pool):
         return {"a": f"assert_eq({f(xs)}, {f(ys)})", "expect": xs == ys, "kind": "eq2_list",
                 "fail_kind": "AssertEq2Failed", "nt": True}
     a_unit = rng.choice(pool.names)
+    if rng.random() < 0.12:
+        # dimensionless units whose size is not 1 (degree, percent, ppm, dozen, turn, ...)
+        global _DIMLESS
+        if _DIMLESS is None:
+            _DIMLESS = [n for n in pool.names if not atom_uexpr(db, pool.primary(n)).dim]
+        if _DIMLESS:
+            a_unit = rng.choice(_DIMLESS)
     b_unit = pool.sibling(rng, a_unit)
     sa, sb = pool.random_spelling(rng, a_unit, 0.3), pool.random_spelling(rng, b_unit, 0.3)
     ua, ub = atom_uexpr(db, sa), atom_uexpr(db, sb)
@@ -154,6 +164,12 @@ def gen_case(rng, db, pool):
         eps_val = 1.0
     E = f"{plit(eps_val)} {se.text}"
     ve = nmul(exact(eps_val), ue.factor)
+    if not ue.dim and rng.random() < 0.5:
+        # dimensionless operands (degrees, percent, dozen, turns, ...): the tolerance as a bare number
+        fv = float(ve)
+        if fv != 0 and not math.isinf(fv):
+            E = plit(fv)
+            ve = exact(fv)
     if eps_val < 0:
         expect = False
     elif to_dec(D) < to_dec(ve) * to_dec("0.999999999") - to_dec(abs(va)) * to_dec("1e-12"):
